@@ -16,7 +16,8 @@ RULE = (
     "assignments are reachable). Oracle: reference symbolic differentiator with unique binders (vh/refs/symbolic.py), "
     "float evaluation, tolerance 1e-9 relative. Non-trivial = nesting depth >= 2 and some inner body mentions a "
     "variable bound at an enclosing level (the configuration in which confusion changes the answer); distinct by "
-    "expression tree."
+    "expression tree. layout: two nested levels (each reverse or forward) through ravel / reshape / flatten with order 'A' / 'K' of a "
+    "C-, Fortran- or transposed-storage array that depends on the variables of both levels, against the closed form."
 )
 
 MODES = ["grad", "deriv", "jac", "vjp", "jvp", "egrad", "vag", "hvp_like"]
@@ -354,10 +355,71 @@ def vector_body(c):
     return ok(nontrivial=uses_outer, key=json.dumps([n, inner_mode, outer_mode, uses_outer]), labels=[f"inner={inner_mode}", f"outer={outer_mode}"], sample=sample)
 
 
+def layout_body(c):
+    """Nested differentiation through a layout-dependent operation: ravel / reshape with order='A' (or 'K') of a Fortran-ordered array
+    that depends on the variables of both levels.  Closed form: reading a Fortran-ordered array with order='A' is reading it in F order."""
+    import autograd
+    import autograd.numpy as anp
+    import numpy as onp
+
+    from .. import values
+
+    m, n = c.int(2, 3), c.int(2, 3)
+    vseed = c.seed()
+    (X0, V, T, U), _ = values.generic(vseed, [(m, n)] * 4, 0.4, 1.4)
+    (cvec,), _ = values.generic(vseed, [(m * n,)], -1.0, 1.0, stream=3)
+    layout = c.choice(["F", "C", "T"])
+    if layout == "F":
+        X0 = onp.asfortranarray(X0)
+    elif layout == "T":
+        X0 = onp.ascontiguousarray(X0.T).T
+    how = c.choice(["ravel_A", "reshape_A", "ravel_K", "flatten_A"])
+    inner_mode, outer_mode = c.choice(["rev", "fwd"]), c.choice(["rev", "fwd"])
+    isf = onp.isfortran(X0)
+    CF = cvec.reshape((m, n), order="F" if isf else "C")  # the coefficient each entry meets when read in the array's own order
+
+    def flat(Z):
+        if how == "ravel_A":
+            return anp.ravel(Z, order="A")
+        if how == "reshape_A":
+            return anp.reshape(Z, (m * n,), order="A")
+        if how == "ravel_K":
+            return anp.ravel(Z, order="K")
+        return Z.flatten("A") if hasattr(Z, "flatten") else onp.ravel(Z, order="A")
+
+    def H(Xo):
+        inner_val = lambda Y: anp.sum(cvec * flat(Y * Y * Xo))
+        Y0 = Xo * 1.0
+        if inner_mode == "rev":
+            return anp.sum(V * autograd.grad(inner_val)(Y0))
+        return autograd.make_jvp(inner_val)(Y0)(T)[1]
+
+    W = V if inner_mode == "rev" else T
+    dH = 4.0 * CF * X0 * W
+    sample = {"m": m, "n": n, "layout": layout, "how": how, "inner": inner_mode, "outer": outer_mode, "vseed": vseed}
+    try:
+        if outer_mode == "rev":
+            got, want = onp.asarray(autograd.grad(H)(X0)), dH
+        else:
+            got, want = onp.asarray(autograd.make_jvp(H)(X0)(U)[1]), onp.sum(dH * U)
+        val, ref = float(H(X0)), float(onp.sum(2.0 * CF * X0 * X0 * W))
+    except NotImplementedError as ex:
+        return raised(ex, "layout", sample=sample)
+    except Exception as ex:
+        return fail("unexpected_exception", f"{type(ex).__name__}: {ex}"[:300], "C08|layout|unexpected_exception", sample=sample)
+    if abs(val - ref) > 1e-10 * max(1.0, abs(ref)):
+        return fail("wrong_value", f"inner derivative {val!r} reference {ref!r}", "C08|layout|inner_value", sample=sample)
+    if got.shape != onp.shape(want) or not onp.allclose(got, want, rtol=1e-10, atol=1e-12):
+        return fail("wrong_value", f"nested derivative through {how} of a {layout}-ordered array ({inner_mode} inside {outer_mode}): {got.tolist()} expected "
+                    f"{onp.asarray(want).tolist()}", "C08|layout|wrong_value", sample=sample)
+    return ok(nontrivial=bool(isf), key=json.dumps(sample), labels=["layout=" + layout, "how=" + how, f"modes={outer_mode}/{inner_mode}"], sample=sample)
+
+
 PROP = Prop("C08", [
     Test("nested_d3", partial(body, 3), quick=4000, thorough=20000, shard_size=150),
     Test("nested_d4", partial(body, 4), quick=2500, thorough=12000, shard_size=100),
     Test("vector", vector_body, quick=1000, thorough=4000, shard_size=100),
+    Test("layout", layout_body, quick=600, thorough=4000, shard_size=100),
 ], RULE, assumptions=[
     "reference symbolic differentiator (vh/refs/symbolic.py) is correct; it shares no code with autograd",
     "scalar expression programs plus one family of vector-valued nestings; nesting depth <= 4-5",
